@@ -25,7 +25,8 @@ PROPERTY = {
 _sel = {
     "C04": ("insert", "push_fore", "push_back", "store", "setn", "push_sort", "new_die", "ctor_dtor"),
     "C05": ("que_push", "que_pull", "que_sort", "que_drop", "que_setz", "que_dtor"),
-    "C06": ("str_setm", "str_catc", "str_catn", "str_cats", "str_cat", "str_exit", "str_new_die", "str_catf", "str_utf_catc"),
+    "C06": ("str_setm", "str_catc", "str_catn", "str_cats", "str_cat", "str_exit", "str_new_die", "str_catf", "str_utf_catc",
+            "str_big_setm", "str_big_catc", "str_big_catn", "str_big_catn0", "str_big_setn_exit"),
 }
 UNITS = []
 for mod, names in _sel.items():
